@@ -36,7 +36,13 @@ SCHEMAS = ["S1", "S2", "S3"]
 TABLES = ["T1", "T2"]
 
 
+_FIXED_SPELLING = [False]
+
+
 def _spell(r: random.Random, s: str) -> str:
+    if _FIXED_SPELLING[0]:
+        # one spelling per name for the whole case: the same statement text then comes back after the context changed
+        return s.lower()
     return r.choice([s, s.lower(), s.capitalize()])
 
 
@@ -97,6 +103,7 @@ def setup_worker(env: core.Env) -> None:
 
 def run_case(case: dict, env: core.Env) -> None:
     r = random.Random(case["spell"])
+    _FIXED_SPELLING[0] = case["spell"] % 2 == 0
     fs = core.new_fs()
     try:
         _run(case, env, fs, r)
